@@ -5,6 +5,16 @@ From QV Require Import Common.Prelude Engine.Model Engine.Core Engine.CoreSpec E
   Engine.MdlSpec Engine.MdlSem Engine.MdlBase Engine.MdlInv Engine.MdlInvState Engine.MdlInvExec.
 Open Scope Z_scope.
 
+Lemma all_callees_app : forall a b, all_callees (a ++ b) = all_callees a ++ all_callees b.
+Proof. intros a b. unfold all_callees. apply flat_map_app. Qed.
+Lemma push_unordered_last : forall o g n, push_unordered (o ++ [DUnordered g]) n = o ++ [DUnordered (g ++ [n])].
+Proof.
+  induction o as [|d o IH]; intros g n; [reflexivity|].
+  cbn [app]. destruct o as [|d' o'].
+  - cbn [app push_unordered]. destruct d; reflexivity.
+  - specialize (IH g n). cbn [app] in *. cbn [push_unordered]. destruct d; rewrite <- IH; destruct (o' ++ [DUnordered g]); reflexivity.
+Qed.
+
 Section Frames.
 Variable rk : node -> nat.
 
@@ -16,9 +26,14 @@ Proof.
   intros s b x n i [A B C D E F G H H9] Hi Hv Hrn Hrt.
   split.
   - unfold fr_obs_reg, fr_observe. cbn [fr_scc]. rewrite (proj1 (fr_register_same x n)). exact A.
-  - unfold fr_obs_reg, fr_observe. cbn [fr_unordered]. rewrite (proj2 (proj2 (fr_register_same x n))). exact B.
+  - unfold fr_obs_reg, fr_observe. cbn [fr_unordered fr_order]. rewrite (proj2 (proj2 (fr_register_same x n))). intro Hu.
+    destruct (B Hu) as [o [g Ho]]. unfold fr_register. destruct (alookup (fr_callees x) n); [eauto|].
+    cbn [fr_order]. rewrite Hu, Ho, push_unordered_last. eauto.
   - rewrite fr_obs_reg_keys. unfold fr_obs_reg, fr_observe. cbn [fr_order]. unfold fr_register.
-    destruct (alookup (fr_callees x) n); [exact C|]. cbn [fr_order]. rewrite B, C, !map_app. reflexivity.
+    destruct (alookup (fr_callees x) n); [exact C|]. cbn [fr_order]. destruct (fr_unordered x) eqn:Hu.
+    + destruct (B eq_refl) as [o [g Ho]]. rewrite <- C, Ho, push_unordered_last, !all_callees_app.
+      cbn [all_callees flat_map dep_nodes]. rewrite !app_nil_r, app_assoc. reflexivity.
+    + rewrite all_callees_app, C. reflexivity.
   - intros y o Hy. unfold fr_obs_reg, fr_observe in Hy. cbn [fr_callees] in Hy.
     unfold fr_register in Hy. destruct (alookup (fr_callees x) n) eqn:E0.
     + apply aset_In_weak in Hy. destruct Hy as [Hy|Hy]; [inversion Hy; discriminate|eapply D; eauto].
@@ -59,6 +74,14 @@ Proof.
   destruct (mo_entry _ _ _ _ Hfr n (alookup_keys _ _ _ Hx)) as [j (A & B & C)].
   assert (j = i) by congruence. subst j. rewrite Hx in A. inversion A. eauto.
 Qed.
+Lemma MFrOk_set_true : forall s b x, MFrOk rk s b x -> MFrOk rk s b (fr_set_unordered x true).
+Proof.
+  intros s b x [A B C D E F G H H9]. split; auto.
+  - intros _. cbn. eauto.
+  - cbn. rewrite all_callees_app, C. cbn. apply app_nil_r.
+Qed.
+Lemma MFrOk_set_false : forall s b x, MFrOk rk s b x -> MFrOk rk s b (fr_set_unordered x false).
+Proof. intros s b x [A B C D E F G H H9]. split; auto. cbn. discriminate. Qed.
 End Frames.
 
 (** the registration check does not look at the pedantic flag *)
